@@ -162,6 +162,30 @@ fn main() {
         }
     }
 
+    // (3) noncanonical bytes that a lax verifier would accept: a depth-0 proof whose leaf and
+    // root are the SAME noncanonical bytes (nothing is hashed at depth 0, so only an explicit
+    // canonicality check can refuse it), and the +p byte alias of a genuine small-limb leaf at
+    // depth 0..3 with the root the genuine leaf folds to
+    {
+        let mut small = limbs_to_bytes(h(&[0xC27, 777]));
+        small[0..8].copy_from_slice(&5u64.to_le_bytes());
+        let mut alias = small;
+        alias[0..8].copy_from_slice(&(5u64 + P).to_le_bytes());
+        for (nm, x) in [("limb0 = p", noncanon1), ("limb3 = 2^64-1", noncanon2), ("+p alias of a small limb", alias)] {
+            proofs.push(Proof { label: format!("depth 0: leaf = root = noncanonical bytes ({nm})"), sibs: vec![], pos: vec![], leaf: x, root: x });
+        }
+        for d in 0..=3usize {
+            let sibs: Vec<[H; 3]> = (0..d).map(|l| [hs[l % 4], hs[(l + 1) % 4], hs[(l + 2) % 4]]).collect();
+            let pos: Vec<u8> = (0..d).map(|l| (l % 4) as u8).collect();
+            let root = reference_fold(&sibs, &pos, &small);
+            proofs.push(Proof { label: format!("depth {d}: genuine small-limb leaf (control)"), sibs: sibs.clone(), pos: pos.clone(), leaf: small, root });
+            proofs.push(Proof { label: format!("depth {d}: +p byte alias of the genuine leaf, genuine root"), sibs: sibs.clone(), pos: pos.clone(), leaf: alias, root });
+            if d == 0 {
+                proofs.push(Proof { label: "depth 0: canonical leaf, root = its +p byte alias".into(), sibs: vec![], pos: vec![], leaf: small, root: alias });
+            }
+        }
+    }
+
     // ---- native verifier vs reference ----
     let n_valid = std::sync::atomic::AtomicU64::new(0);
     proofs.par_iter().for_each(|p| {
